@@ -455,6 +455,30 @@ def cli_contracts():
 
 
 # ------------------------------------------------- Any-typed store sites --
+UNMODELLED = "c05!value-of-unmodelled-kind"
+
+
+def _untrusted(pc, goal):
+    """A counter-model that only says 'the value produced by an unmodelled library call is not JSON-able' is not a
+    counter-example by itself: the obligation becomes `unknown` and the native replayer decides (VIOLATION with a
+    failing document, else UNDECIDED)."""
+    seen, stack = set(), [goal]
+    while stack:
+        x = stack.pop()
+        if x.get_id() in seen:
+            continue
+        seen.add(x.get_id())
+        if z3.is_const(x) and x.decl().name().startswith(UNMODELLED):
+            return True
+        stack.extend(x.children())
+    return False
+
+
+from pyvc import solve as _solve
+if _untrusted not in _solve.SAT_UNTRUSTED:
+    _solve.SAT_UNTRUSTED.append(_untrusted)
+
+
 def result_scalar(c, idx=None):
     r = c.result
     if idx is not None:
@@ -462,6 +486,9 @@ def result_scalar(c, idx=None):
             return F
         r = r.items[idx]
     t = c.ex.to_pv(c.st, r)
+    if t is None and isinstance(r, VUnk):
+        c.note = f"the stored value comes from an unmodelled call ({r.tag})"
+        return z3.Bool(fresh_name(UNMODELLED))
     return sp.scalar_ok(t) if t is not None else F
 
 
@@ -506,6 +533,16 @@ def store_site_contracts(reg):
         params=[("cell", p_xlrd_cell()), ("workbook", p_unk())],
         ensures=[("json-able-scalar-into-Any-field", lambda c: result_scalar(c, 0))],
         note="what XlsSheet.data (List[Dict[str, Any]]) receives as value: None/bool/int/float/str only"))
+    from contracts import etree_model
+    from contracts.c02_etree_model import p_elem
+    etree_model.install(reg)
+    out.append(FnContract(
+        target=f"{ODS_PY}::_extract_cell_value", params=[("cell", p_elem())],
+        ensures=[("json-able-scalar-into-Any-field", lambda c: result_scalar(c, 0))],
+        raises=[Raises("Exception", sub=True, label="malformed attribute values (OverflowError of int(inf) etc.): outside C05")],
+        note="what OdsSheet.data (List[List[Any]]) receives: the first component is None/bool/int/float/str on every path "
+             "(the cell is an abstract xml element: every value-type / attribute text)"))
+    EXECUTOR_KW[f"{ODS_PY}::_extract_cell_value"] = {"inline_calls": False, "abstract": True}
     return out
 
 
@@ -712,14 +749,160 @@ def glue(repo, tier):
         dumps = [x for x in ast.walk(mn) if isinstance(x, ast.Call) and ast.unparse(x.func) in ("json.dumps", "json.dump")]
         pay = [x for x in ast.walk(mn) if isinstance(x, ast.Assign) and ast.unparse(x.targets[0]) == "payload"]
         want = "_serialize_unit_results(results, include_binary=include_binary) if args.json_unit else _serialize_results(results, include_binary=include_binary)"
-        ok = len(pay) == 1 and ast.unparse(pay[0].value) == want and len(dumps) == 1 and ast.unparse(dumps[0].args[0]) == "payload" \
-            and "include_binary = bool(args.binary)" in src
-        why = f"payload = {ast.unparse(pay[0].value)[:120] if pay else '?'}; {len(dumps)} json.dump(s) call(s)"
+        # the text written is json.dumps(payload) with the standard encoder's defaults (ensure_ascii: any str, including lone
+        # surrogates from surrogateescape'd names, is written as ASCII), written unchanged to sys.stdout
+        texts = [x for x in ast.walk(mn) if isinstance(x, ast.Assign) and x.value in dumps]
+        tname_ = ast.unparse(texts[0].targets[0]) if len(texts) == 1 else None
+        writes = [ast.unparse(x) for x in ast.walk(mn) if isinstance(x, ast.Call) and ast.unparse(x.func) in ("sys.stdout.write", "print", "sys.stdout.buffer.write")
+                  and any(tname_ in [n_.id for n_ in ast.walk(a_) if isinstance(n_, ast.Name)] for a_ in x.args)]
+        ok = len(pay) == 1 and ast.unparse(pay[0].value) == want and len(dumps) == 1 and ast.unparse(dumps[0]) == "json.dumps(payload)" \
+            and "include_binary = bool(args.binary)" in src and tname_ is not None and writes == [f"sys.stdout.write({tname_})"]
+        why = f"payload = {ast.unparse(pay[0].value)[:100] if pay else '?'}; encoder call(s): {[ast.unparse(x) for x in dumps]}; writes: {writes}"
     obls.append(ground_obligation("C05/cli.py::main/glue#stdout-json-is-the-shaped-payload", ok, why, CLI_PY, kind="glue", backend="ground", definite=False))
     return {"obligations": obls, "functions": [dict(c.fn_info("main"), obligations=1)] if mn is not None else []}
 
 
-EXTRA = [registry, ods_cell_kinds, covers, glue]
+def store_site_coverage(repo, tier):
+    """Call-site coverage of the cell normalisers: everything that reaches XlsxSheet.data / XlsSheet.data went through
+    `_get_cell_value` / `_get_cell_values` (or is a header string).  Syntactic provenance inside the one function that
+    builds the rows; an unrecognised shape is `unknown` (the native cell-kind scopes then decide)."""
+    obls, fns = [], []
+
+    def assigns_of(fn, name):
+        out = []
+        for n in ast.walk(fn):
+            if isinstance(n, (ast.Assign, ast.AnnAssign)) and n.value is not None:
+                tgts = n.targets if isinstance(n, ast.Assign) else [n.target]
+                for t in tgts:
+                    if isinstance(t, ast.Name) and t.id == name:
+                        out.append(("direct", n.value, None))
+                    elif isinstance(t, ast.Tuple):
+                        for i, e in enumerate(t.elts):
+                            if isinstance(e, ast.Name) and e.id == name:
+                                out.append(("unpack", n.value, i))
+        return out
+
+    def appends_to(fn, name):
+        return [n.args[0] for n in ast.walk(fn) if isinstance(n, ast.Call) and isinstance(n.func, ast.Attribute) and n.func.attr == "append"
+                and isinstance(n.func.value, ast.Name) and n.func.value.id == name and len(n.args) == 1]
+
+    def other_mutations(fn, name):
+        return [ast.unparse(n)[:60] for n in ast.walk(fn) if isinstance(n, ast.Call) and isinstance(n.func, ast.Attribute)
+                and isinstance(n.func.value, ast.Name) and n.func.value.id == name and n.func.attr in ("extend", "insert", "update", "setdefault", "__setitem__")]
+
+    # ---- xlsx
+    m = loader.module(XLSX_PY, repo)
+    fn = m.functions.get("_read_sheet_data")
+    oid = "C05/xlsx_extractor.py::_read_sheet_data/store-sites#sheet-data-only-from-_get_cell_value"
+    if fn is None:
+        obls.append(ground_obligation(oid, False, "function missing", XLSX_PY, kind="store-sites", backend="dataflow", definite=False))
+    else:
+        why = []
+
+        def leaf_ok(e):
+            if isinstance(e, ast.Call) and ast.unparse(e.func) == "_get_cell_value" and len(e.args) == 1:
+                return True
+            if isinstance(e, ast.Call) and ast.unparse(e.func) == "str":
+                return True
+            if isinstance(e, ast.JoinedStr) or (isinstance(e, ast.Constant) and (e.value is None or isinstance(e.value, str))):
+                return True
+            if isinstance(e, ast.IfExp):
+                return leaf_ok(e.body) and leaf_ok(e.orelse)
+            return False
+
+        def expr_ok(e, depth=0):
+            if depth > 4:
+                return False
+            if isinstance(e, ast.ListComp):
+                return leaf_ok(e.elt)
+            if isinstance(e, ast.DictComp):
+                return leaf_ok(e.value)
+            if isinstance(e, ast.List):
+                return all(expr_ok(x, depth + 1) for x in e.elts)
+            if isinstance(e, ast.Name):
+                a = assigns_of(fn, e.id)
+                return bool(a) and all(k == "direct" and expr_ok(v, depth + 1) for k, v, _i in a) and all(expr_ok(x, depth + 1) for x in appends_to(fn, e.id)) \
+                    and not other_mutations(fn, e.id)
+            return False
+        rets = [n for n in ast.walk(fn) if isinstance(n, ast.Return) and n.value is not None]
+        for r in rets:
+            parts = r.value.elts if isinstance(r.value, ast.Tuple) else [r.value]
+            for part in parts:
+                if not expr_ok(part):
+                    why.append(f"line {r.lineno}: `{ast.unparse(part)[:50]}` is not built only from _get_cell_value(...) / header strings")
+        obls.append(ground_obligation(oid, bool(rets) and not why, "; ".join(why) or f"{len(rets)} return site(s)", f"{XLSX_PY}:{fn.lineno}", kind="store-sites",
+                                      backend="dataflow", definite=False))
+        fns.append(dict(m.fn_info("_read_sheet_data"), obligations=1))
+    # ---- xls
+    m = loader.module(XLS_PY, repo)
+    oid = "C05/xls_extractor.py::_read_content/store-sites#sheet-data-only-from-_get_cell_values"
+    cands = [(q, f) for q, f in m.functions.items() if any(isinstance(n, ast.Call) and ast.unparse(n.func) == "XlsSheet" for n in ast.walk(f))]
+    why, n_sites = [], 0
+    for q, fn in cands:
+        for call in [n for n in ast.walk(fn) if isinstance(n, ast.Call) and ast.unparse(n.func) == "XlsSheet"]:
+            dkw = [k.value for k in call.keywords if k.arg == "data"] + ([call.args[1]] if len(call.args) > 1 else [])
+            for dv in dkw:
+                n_sites += 1
+                if isinstance(dv, ast.List) and not dv.elts:
+                    continue
+                if not isinstance(dv, ast.Name):
+                    why.append(f"{q}:{call.lineno} data={ast.unparse(dv)[:40]}")
+                    continue
+                if other_mutations(fn, dv.id) or not all(k == "direct" and isinstance(v, ast.List) and not v.elts for k, v, _i in assigns_of(fn, dv.id)):
+                    why.append(f"{q}: `{dv.id}` is not a list filled only by append")
+                for row in appends_to(fn, dv.id):
+                    if not isinstance(row, ast.Name):
+                        why.append(f"{q}: appended row `{ast.unparse(row)[:40]}`")
+                        continue
+                    stores = [n for n in ast.walk(fn) if isinstance(n, ast.Assign) and any(isinstance(t, ast.Subscript) and isinstance(t.value, ast.Name) and t.value.id == row.id
+                                                                                           for t in n.targets)]
+                    if other_mutations(fn, row.id) or not stores or not all(k == "direct" and isinstance(v, ast.Dict) and not v.keys for k, v, _i in assigns_of(fn, row.id)):
+                        why.append(f"{q}: row `{row.id}` is not a dict filled only by item stores")
+                    for st_ in stores:
+                        v = st_.value
+                        srcs = assigns_of(fn, v.id) if isinstance(v, ast.Name) else []
+                        if not srcs or not all(k == "unpack" and i == 0 and isinstance(val, ast.Call) and ast.unparse(val.func) == "_get_cell_values" for k, val, i in srcs):
+                            why.append(f"{q}:{st_.lineno} stored value `{ast.unparse(v)[:40]}` is not the native value of _get_cell_values(...)")
+        fns.append(dict(m.fn_info(q), obligations=1))
+    obls.append(ground_obligation(oid, n_sites >= 1 and not why, "; ".join(why) or f"{n_sites} XlsSheet(data=...) site(s)", XLS_PY, kind="store-sites", backend="dataflow",
+                                  definite=False))
+    return {"obligations": obls, "functions": fns}
+
+
+def native_scope(repo, tier):
+    """BOUNDED stand-ins (DESIGN 2.8), one obligation per construct, run on the real code on every check (replay/C05.py):
+    a mismatch is a concrete failing input (violation); finding nothing proves nothing (`bounded-ok`, never discharged).
+    They stand in for what the contracts do not decide: that from_json raises nothing on to_json output; that base64 /
+    json library behaviour is as assumed at block-size boundaries; that __post_init__ normalisations are idempotent;
+    what openpyxl / the ODF parser hand to the cell normalisers; what cli.main writes to an encoded stdout."""
+    root = os.path.dirname(os.path.dirname(os.path.abspath(__file__)))
+    pfx = "C05/replay::native-scope/bounded#"
+    req = {"property": "C05", "obligation": pfx + "all", "all_scopes": True, "repo": repo}
+    try:
+        p = subprocess.run(["/venv/bin/python", os.path.join(root, "replay", "run.py")], input=json.dumps(req), capture_output=True, text=True,
+                           timeout=900, env=dict(os.environ, VERIF_REPO=repo))
+        lines = [l for l in p.stdout.splitlines() if l.startswith("{")]
+        res = json.loads(lines[-1]) if lines else {"error": (p.stderr or p.stdout)[-500:]}
+    except Exception as e:  # noqa
+        res = {"error": str(e)}
+    if "scopes" not in res:
+        return {"obligations": [], "undecided": [{"obligation": pfx + "all", "why": "native scope could not run: " + str(res.get("error", res.get("note")))[:300]}]}
+    obls, und = [], []
+    for name, r in res["scopes"].items():
+        oid = f"{pfx}{name}.BOUNDED"
+        if "error" in r:
+            und.append({"obligation": oid, "why": "native scope crashed: " + r["error"][-300:]})
+            continue
+        f = r.get("failure")
+        o = ground_obligation(oid, not f, "" if not f else f"{f.get('target')}: {json.dumps(f.get('inputs'), default=repr)[:300]} -> {str(f.get('observed'))[:300]}",
+                              "replay/C05.py", kind="bounded", backend="native-replay")
+        o["bounded"] = True
+        o["bound"] = r.get("bound", "")
+        obls.append(o)
+    return {"obligations": obls, "undecided": und}
+
+
+EXTRA = [registry, ods_cell_kinds, covers, glue, store_site_coverage, native_scope]
 
 
 def recorded_exclusions():
@@ -772,9 +955,11 @@ ASSUMED_MODELS = ["dataclasses.is_dataclass / fields (instance: declared fields 
                   "xml Element.get(name, default) returns a str or the default (ODS kind flow)",
                   "extraction results' iterate_units() yields a finite sequence of dataclass instances"]
 BOUNDED = [{"what": "from_json(json.loads(json.dumps(to_json(x)))) raises nothing (the decoder contracts are partial-correctness: 'returns DESER on normal "
-                    "return'; exceptions on malformed encodings are allowed and not characterised)",
-            "bound": "BOUNDED native replay: 5 type-directed variants of each of the 118 registered dataclasses (580 instances, strings from the marker "
-                     "vocabulary) + results and units of 40 fixture documents (replay/C05.py --scope)"}]
+                    "return'; exceptions on malformed encodings are allowed and not characterised); base64/json library behaviour at block-size boundaries; "
+                    "idempotence of __post_init__ normalisations; value kinds that openpyxl / xlrd / the ODF parser hand to the cell normalisers; what "
+                    "cli.main writes to an encoded stdout",
+            "bound": "the BOUNDED obligations C05/replay::native-scope/bounded#<construct>.BOUNDED (replay/C05.py scopes, run on the real code on every check); "
+                     "each lists its own bound"}]
 ASSUMPTIONS = ["PY-FLOAT-REAL: floats in V are finite reals (NaN/inf not modelled)",
                "mappings in V have string keys (registry obligation: every Dict hint has str keys); str(key) == key; keys are unique",
                "a set is encoded in its iteration order, which is fixed within a process (PY-HASHSEED)",
